@@ -63,7 +63,7 @@ def render(case, obs):
     rel = case.get('releases', RELEASES)
     cmds = []
     if case['kind'] == 'latest':
-        o = f'(Ok {cstr(obs["ok"])})' if 'ok' in obs else f'(Err {cexn(obs["err"])})'
+        o = f'(Ok {cstr(obs["ok"])} : res string)' if 'ok' in obs else f'(Err {cexn(obs["err"])} : res string)'
         return ('latest', f'({clist([cstr(x) for x in case["tags"]])}, {o})')
     if case['kind'] == 'history':
         i = 0
